@@ -1,1 +1,406 @@
 import Model.CollocFiles
+import Mathlib.Tactic
+
+/-! Helper lemmas about the worker loop (`_process_caller`). -/
+
+namespace CFiles
+
+/-- number of items `_collocate_matches` yields (non-skipped matches) -/
+def nYield : List Job → Nat
+  | [] => 0
+  | j :: js => (match j.out with | .res _ => 1 | _ => 0) + nYield js
+
+theorem nYield_le_length (jobs : List Job) : nYield jobs ≤ jobs.length := by
+  induction jobs with
+  | nil => simp [nYield]
+  | cons j js ih => cases h : j.out <;> simp [nYield, h] <;> omega
+
+/-- the results inside the emitted bundles, flattened -/
+def emitted (is : List Item) : List Result := ((bundlesOf is).flatten).map (·.r)
+
+@[simp] theorem bundlesOf_progress (is : List Item) : bundlesOf (.progress :: is) = bundlesOf is := rfl
+@[simp] theorem bundlesOf_crashed (is : List Item) : bundlesOf (.crashed :: is) = bundlesOf is := rfl
+@[simp] theorem bundlesOf_result (c : List Cached) (is : List Item) :
+    bundlesOf (.result c :: is) = c :: bundlesOf is := rfl
+@[simp] theorem bundlesOf_nil : bundlesOf [] = [] := rfl
+
+/-- bundle = None: every non-None result is put at once, on its own -/
+theorem emitted_worker_none (lk : List Job) (tag : Option Tag) (jobs : List Job)
+    (hc : ∀ j ∈ jobs, j.out ≠ .crash) (hl : nYield jobs ≤ lk.length) :
+    emitted (worker .none lk [] tag jobs) = produced jobs := by
+  induction jobs generalizing lk with
+  | nil => simp [worker, emitted, produced]
+  | cons j rest ih =>
+    have hc' : ∀ j ∈ rest, j.out ≠ .crash := fun x hx => hc x (List.mem_cons_of_mem _ hx)
+    have hj := hc j List.mem_cons_self
+    unfold worker
+    cases hout : j.out with
+    | skipped =>
+      simp only [nYield, hout] at hl
+      simp only [produced, hout]
+      exact ih lk hc' (by omega)
+    | crash => exact absurd hout hj
+    | res ro =>
+      simp only [nYield, hout] at hl
+      cases lk with
+      | nil => simp at hl
+      | cons m lk' =>
+        simp only [List.length_cons] at hl
+        cases ro with
+        | none =>
+          simp only [produced, hout]
+          have := ih lk' hc' (by omega)
+          simpa [emitted] using this
+        | some r =>
+          simp only [produced, hout]
+          have := ih lk' hc' (by omega)
+          simp only [emitted, bundlesOf_result, List.flatten_cons, List.map_append, List.map_cons,
+            List.singleton_append] at this ⊢
+          rw [this]
+
+/-- bundle = primary / daily: the bundles, concatenated, are the cached results followed by
+all later non-None results (final flush included) -/
+theorem emitted_worker_bundle (b : Bundle) (hb : b ≠ .none) (lk : List Job) (cached : List Cached)
+    (tag : Option Tag) (jobs : List Job)
+    (hc : ∀ j ∈ jobs, j.out ≠ .crash) (hl : nYield jobs ≤ lk.length) :
+    emitted (worker b lk cached tag jobs) = cached.map (·.r) ++ produced jobs := by
+  induction jobs generalizing lk cached tag with
+  | nil =>
+    unfold worker
+    cases cached <;> simp [emitted, produced]
+  | cons j rest ih =>
+    have hc' : ∀ j ∈ rest, j.out ≠ .crash := fun x hx => hc x (List.mem_cons_of_mem _ hx)
+    have hj := hc j List.mem_cons_self
+    unfold worker
+    cases hout : j.out with
+    | skipped =>
+      simp only [nYield, hout] at hl
+      simp only [produced, hout]
+      exact ih lk cached tag hc' (by omega)
+    | crash => exact absurd hout hj
+    | res ro =>
+      simp only [nYield, hout] at hl
+      cases lk with
+      | nil => simp at hl
+      | cons m lk' =>
+        simp only [List.length_cons] at hl
+        cases ro with
+        | none =>
+          simp only [produced, hout]
+          have := ih lk' cached tag hc' (by omega)
+          simpa [emitted] using this
+        | some r =>
+          simp only [produced, hout]
+          cases b with
+          | none => exact absurd rfl hb
+          | primary =>
+            split
+            · have := ih lk' [⟨tagOf .primary m r, r⟩] (some (tagOf .primary m r)) hc' (by omega)
+              simp only [emitted, bundlesOf_result, List.flatten_cons, List.map_append] at this ⊢
+              rw [this]; try simp
+            · have := ih lk' (cached ++ [⟨tagOf .primary m r, r⟩]) (some (tagOf .primary m r)) hc' (by omega)
+              rw [this]; try simp
+          | daily =>
+            split
+            · have := ih lk' [⟨tagOf .daily m r, r⟩] (some (tagOf .daily m r)) hc' (by omega)
+              simp only [emitted, bundlesOf_result, List.flatten_cons, List.map_append] at this ⊢
+              rw [this]; try simp
+            · have := ih lk' (cached ++ [⟨tagOf .daily m r, r⟩]) (some (tagOf .daily m r)) hc' (by omega)
+              rw [this]; try simp
+
+/-! ### bundles are maximal runs of equal tag -/
+
+/-- invariant of `(cached_data, current_bundle_tag)` -/
+def CacheInv (cached : List Cached) (tag : Option Tag) : Prop :=
+  (∀ x ∈ cached, some x.tag = tag) ∧ (tag ≠ none → cached ≠ [])
+
+theorem shouldSave_true {cur : Option Tag} {t : Tag} (h : shouldSave cur t = true) :
+    ∃ c, cur = some c ∧ c ≠ t := by
+  cases cur with
+  | none => simp [shouldSave] at h
+  | some c => exact ⟨c, rfl, by simpa [shouldSave] using h⟩
+
+theorem shouldSave_false {cur : Option Tag} {t : Tag} (h : ¬ shouldSave cur t = true) :
+    cur = none ∨ cur = some t := by
+  cases cur with
+  | none => exact Or.inl rfl
+  | some c => right; simp [shouldSave] at h; rw [h]
+
+theorem cacheInv_append {cached : List Cached} {tag : Option Tag} {t : Tag} {r : Result}
+    (hi : CacheInv cached tag) (h : ¬ shouldSave tag t = true) :
+    CacheInv (cached ++ [⟨t, r⟩]) (some t) := by
+  refine ⟨?_, fun _ => by simp⟩
+  intro x hx
+  rw [List.mem_append] at hx
+  rcases hx with hx | hx
+  · rcases shouldSave_false h with h0 | h0
+    · have := hi.1 x hx; rw [h0] at this; cases this
+    · have := hi.1 x hx; rw [h0] at this; exact this
+  · simp only [List.mem_singleton] at hx; subst hx; rfl
+
+theorem cacheInv_single (t : Tag) (r : Result) : CacheInv [⟨t, r⟩] (some t) :=
+  ⟨fun x hx => by simp only [List.mem_singleton] at hx; subst hx; rfl, fun _ => by simp⟩
+
+/-- every emitted bundle is non-empty and carries one tag (b ≠ None) -/
+theorem bundles_uniform (b : Bundle) (hb : b ≠ .none) (lk : List Job) (cached : List Cached)
+    (tag : Option Tag) (jobs : List Job) (hi : CacheInv cached tag) :
+    ∀ c ∈ bundlesOf (worker b lk cached tag jobs), c ≠ [] ∧ ∀ x ∈ c, ∀ y ∈ c, x.tag = y.tag := by
+  induction jobs generalizing lk cached tag with
+  | nil =>
+    unfold worker
+    intro c hcm
+    cases hcd : cached with
+    | nil => simp [hcd] at hcm
+    | cons a as =>
+      simp only [hcd, List.isEmpty_cons, Bool.false_eq_true, if_false, bundlesOf_result,
+        bundlesOf_nil, List.mem_singleton] at hcm
+      subst hcm
+      refine ⟨by simp, fun x hx y hy => ?_⟩
+      have h1 := hi.1 x (hcd ▸ hx)
+      have h2 := hi.1 y (hcd ▸ hy)
+      exact Option.some.inj (h1.trans h2.symm)
+  | cons j rest ih =>
+    unfold worker
+    cases hout : j.out with
+    | skipped => exact ih lk cached tag hi
+    | crash => simp
+    | res ro =>
+      cases lk with
+      | nil => simp
+      | cons m lk' =>
+        cases ro with
+        | none => simpa using ih lk' cached tag hi
+        | some r =>
+          have key : ∀ t : Tag, ∀ c ∈ bundlesOf (if shouldSave tag t = true then
+              Item.result cached :: worker b lk' [⟨t, r⟩] (some t) rest
+              else worker b lk' (cached ++ [⟨t, r⟩]) (some t) rest),
+              c ≠ [] ∧ ∀ x ∈ c, ∀ y ∈ c, x.tag = y.tag := by
+            intro t c hcm
+            split at hcm
+            · rename_i hs
+              obtain ⟨c0, hc0, hne⟩ := shouldSave_true hs
+              simp only [bundlesOf_result, List.mem_cons] at hcm
+              rcases hcm with rfl | hcm
+              · refine ⟨hi.2 (by rw [hc0]; simp), fun x hx y hy => ?_⟩
+                exact Option.some.inj ((hi.1 x hx).trans (hi.1 y hy).symm)
+              · exact ih lk' _ _ (cacheInv_single t r) c hcm
+            · rename_i hs
+              exact ih lk' _ _ (cacheInv_append hi hs) c hcm
+          cases b with
+          | none => exact absurd rfl hb
+          | primary => exact key _
+          | daily => exact key _
+
+/-- the first bundle still to be emitted carries the current tag -/
+theorem head_bundle_tag (b : Bundle) (hb : b ≠ .none) (lk : List Job) (cached : List Cached)
+    (T : Tag) (jobs : List Job) (hi : CacheInv cached (some T)) :
+    ∀ c, (bundlesOf (worker b lk cached (some T) jobs)).head? = some c → ∀ y ∈ c, y.tag = T := by
+  induction jobs generalizing lk cached T with
+  | nil =>
+    unfold worker
+    intro c hcm
+    cases hcd : cached with
+    | nil => simp [hcd] at hcm
+    | cons a as =>
+      simp only [hcd, List.isEmpty_cons, Bool.false_eq_true, if_false, bundlesOf_result,
+        bundlesOf_nil, List.head?_cons, Option.some.injEq] at hcm
+      subst hcm
+      intro y hy
+      exact Option.some.inj (hi.1 y (hcd ▸ hy))
+  | cons j rest ih =>
+    unfold worker
+    cases hout : j.out with
+    | skipped => exact ih lk cached T hi
+    | crash => simp
+    | res ro =>
+      cases lk with
+      | nil => simp
+      | cons m lk' =>
+        cases ro with
+        | none => simpa using ih lk' cached T hi
+        | some r =>
+          have key : ∀ t : Tag, ∀ c, (bundlesOf (if shouldSave (some T) t = true then
+              Item.result cached :: worker b lk' [⟨t, r⟩] (some t) rest
+              else worker b lk' (cached ++ [⟨t, r⟩]) (some t) rest)).head? = some c →
+              ∀ y ∈ c, y.tag = T := by
+            intro t c hcm
+            split at hcm
+            · simp only [bundlesOf_result, List.head?_cons, Option.some.injEq] at hcm
+              subst hcm
+              intro y hy
+              exact Option.some.inj (hi.1 y hy)
+            · rename_i hs
+              have hT : T = t := by
+                rcases shouldSave_false hs with h0 | h0
+                · cases h0
+                · exact Option.some.inj h0
+              subst hT
+              exact ih lk' _ _ (cacheInv_append hi hs) c hcm
+          cases b with
+          | none => exact absurd rfl hb
+          | primary => exact key _
+          | daily => exact key _
+
+/-- consecutive bundles carry different tags (so each bundle is a *maximal* run) -/
+theorem bundles_chain (b : Bundle) (hb : b ≠ .none) (lk : List Job) (cached : List Cached)
+    (tag : Option Tag) (jobs : List Job) (hi : CacheInv cached tag) :
+    List.IsChain (fun c d : List Cached => ∀ x ∈ c, ∀ y ∈ d, x.tag ≠ y.tag)
+      (bundlesOf (worker b lk cached tag jobs)) := by
+  induction jobs generalizing lk cached tag with
+  | nil =>
+    unfold worker
+    cases cached <;> simp
+  | cons j rest ih =>
+    unfold worker
+    cases hout : j.out with
+    | skipped => exact ih lk cached tag hi
+    | crash => simp
+    | res ro =>
+      cases lk with
+      | nil => simp
+      | cons m lk' =>
+        cases ro with
+        | none => simpa using ih lk' cached tag hi
+        | some r =>
+          have key : ∀ t : Tag, List.IsChain (fun c d : List Cached => ∀ x ∈ c, ∀ y ∈ d, x.tag ≠ y.tag)
+              (bundlesOf (if shouldSave tag t = true then
+              Item.result cached :: worker b lk' [⟨t, r⟩] (some t) rest
+              else worker b lk' (cached ++ [⟨t, r⟩]) (some t) rest)) := by
+            intro t
+            split
+            · rename_i hs
+              obtain ⟨c0, hc0, hne⟩ := shouldSave_true hs
+              simp only [bundlesOf_result]
+              have hrest := ih lk' [⟨t, r⟩] (some t) (cacheInv_single t r)
+              have hhead := head_bundle_tag b hb lk' [⟨t, r⟩] t rest (cacheInv_single t r)
+              cases hbs : bundlesOf (worker b lk' [⟨t, r⟩] (some t) rest) with
+              | nil => simp
+              | cons d ds =>
+                rw [hbs] at hrest hhead
+                refine List.IsChain.cons_cons ?_ hrest
+                intro x hx y hy
+                have hx' := hi.1 x hx
+                rw [hc0] at hx'
+                have hy' := hhead d (by simp) y hy
+                have hxc := Option.some.inj hx'
+                rw [hy', hxc]
+                exact hne
+            · rename_i hs
+              exact ih lk' _ _ (cacheInv_append hi hs)
+          cases b with
+          | none => exact absurd rfl hb
+          | primary => exact key _
+          | daily => exact key _
+
+/-! ### crash and lookup -/
+
+/-- `matches[processed]` never raises IndexError: the lookup list is long enough -/
+theorem worker_no_crash_item (b : Bundle) (lk : List Job) (cached : List Cached) (tag : Option Tag)
+    (jobs : List Job) (hc : ∀ j ∈ jobs, j.out ≠ .crash) (hl : nYield jobs ≤ lk.length) :
+    Item.crashed ∉ worker b lk cached tag jobs := by
+  induction jobs generalizing lk cached tag with
+  | nil => unfold worker; split <;> simp
+  | cons j rest ih =>
+    have hc' : ∀ j ∈ rest, j.out ≠ .crash := fun x hx => hc x (List.mem_cons_of_mem _ hx)
+    have hj := hc j List.mem_cons_self
+    unfold worker
+    cases hout : j.out with
+    | skipped =>
+      simp only [nYield, hout] at hl
+      exact ih lk cached tag hc' (by omega)
+    | crash => exact absurd hout hj
+    | res ro =>
+      simp only [nYield, hout] at hl
+      cases lk with
+      | nil => simp at hl
+      | cons m lk' =>
+        simp only [List.length_cons] at hl
+        cases ro with
+        | none => simpa using ih lk' cached tag hc' (by omega)
+        | some r =>
+          cases b with
+          | none => simpa using ih lk' cached tag hc' (by omega)
+          | primary =>
+            simp only
+            split
+            · simpa using ih lk' _ _ hc' (by omega)
+            · exact ih lk' _ _ hc' (by omega)
+          | daily =>
+            simp only
+            split
+            · simpa using ih lk' _ _ hc' (by omega)
+            · exact ih lk' _ _ hc' (by omega)
+
+end CFiles
+
+namespace CFiles
+
+/-- bundle = None: every bundle is a single dataset -/
+theorem bundles_none_single (lk : List Job) (tag : Option Tag) (jobs : List Job) :
+    ∀ c ∈ bundlesOf (worker .none lk [] tag jobs), c.length = 1 := by
+  induction jobs generalizing lk with
+  | nil => simp [worker]
+  | cons j rest ih =>
+    unfold worker
+    cases hout : j.out with
+    | skipped => exact ih lk
+    | crash => simp
+    | res ro =>
+      cases lk with
+      | nil => simp
+      | cons m lk' =>
+        cases ro with
+        | none => simpa using ih lk'
+        | some r =>
+          intro c hc
+          simp only [bundlesOf_result, List.mem_cons] at hc
+          rcases hc with rfl | hc
+          · rfl
+          · exact ih lk' c hc
+
+/-- a crash ends the worker: it puts what it had put before, then the crash marker; the cached
+bundle is dropped and nothing of the later matches is delivered -/
+theorem worker_crash (b : Bundle) (lk : List Job) (cached : List Cached) (tag : Option Tag)
+    (pre post : List Job) (j : Job) (hj : j.out = .crash) (hc : ∀ x ∈ pre, x.out ≠ .crash) :
+    ∃ is, worker b lk cached tag (pre ++ j :: post) = is ++ [.crashed] := by
+  induction pre generalizing lk cached tag with
+  | nil =>
+    refine ⟨[], ?_⟩
+    simp only [List.nil_append]
+    unfold worker
+    simp [hj]
+  | cons a pre ih =>
+    have hc' : ∀ x ∈ pre, x.out ≠ .crash := fun x hx => hc x (List.mem_cons_of_mem _ hx)
+    have ha := hc a List.mem_cons_self
+    simp only [List.cons_append]
+    unfold worker
+    cases hout : a.out with
+    | skipped => exact ih lk cached tag hc'
+    | crash => exact absurd hout ha
+    | res ro =>
+      cases lk with
+      | nil => exact ⟨[], rfl⟩
+      | cons m lk' =>
+        cases ro with
+        | none =>
+          obtain ⟨is, h⟩ := ih lk' cached tag hc'
+          exact ⟨.progress :: is, by (try dsimp only); rw [h]; rfl⟩
+        | some r =>
+          cases b with
+          | none =>
+            obtain ⟨is, h⟩ := ih lk' cached tag hc'
+            exact ⟨_ :: is, by (try dsimp only); rw [h]; rfl⟩
+          | primary =>
+            simp only
+            split
+            · obtain ⟨is, h⟩ := ih lk' [⟨tagOf .primary m r, r⟩] (some (tagOf .primary m r)) hc'
+              exact ⟨_ :: is, by (try dsimp only); rw [h]; rfl⟩
+            · exact ih lk' _ _ hc'
+          | daily =>
+            simp only
+            split
+            · obtain ⟨is, h⟩ := ih lk' [⟨tagOf .daily m r, r⟩] (some (tagOf .daily m r)) hc'
+              exact ⟨_ :: is, by (try dsimp only); rw [h]; rfl⟩
+            · exact ih lk' _ _ hc'
+
+end CFiles
